@@ -81,6 +81,11 @@ def cases(tier, seed):
             for est, blank in ((["turnout"], ["gop"]), (["turnout"], ["gop", "dem"]), (["turnout", "dem"], ["gop"]), (["turnout", "dem"], ["dem"]), (["dem", "turnout"], ["turnout"])):
                 for loc in ("pop0", "newcounty"):
                     out.append(dict(seed=seed, bg=dict(n=n, layout="AA2", partial=1), probes=[["reporting", loc], ["nonrep_partial", "pop1"]], blank=blank, cfg=_cfg(setup, "all", policy, est, [], [0.5, 0.9])))
+    # more votes counted than expected: a reporting unit at 104 percent is still a reporting unit
+    for policy in ("zero", "drop"):
+        for setup, n in (("np1", 24), ("ga1", 16)):
+            for loc in ("pop0", "newcounty"):
+                out.append(dict(seed=seed, bg=dict(n=n, layout="AA2", partial=1), probes=[["reporting", loc], ["nonrep_partial", "pop1"]], over100=True, cfg=_cfg(setup, "all", policy, ["turnout"], [], [0.5, 0.9])))
     if tier == "thorough":
         t3 = S.probe_types(statuses=["nonrep_partial", "unexpected", "zero_baseline", "nonrep_exceed", "missing"], locations=["pop0", "newcounty", "newstate"])
         for pr in S.multisets(t3, 2):
@@ -120,6 +125,9 @@ def evaluate(case):
     else:
         units = S.build_units(case)
         cfg = case["cfg"]
+        if case.get("over100"):
+            [u for u in units if u["role"] == "probe"][0]["pev"] = 104.0
+            cov["runs_with_unit_above_100_percent"] += 1
         if case.get("blank"):
             for u in units:
                 if u["role"] == "probe":
